@@ -246,3 +246,91 @@ class UintDecode(_Codec):
                 ctx.oblige("reads-at-0-when-no-start-index-is-given", z3.BoolVal(False) if c is None else ((c == 0) if is_z3(c) else z3.BoolVal(c == 0)))
             else:
                 ctx.oblige("reads-at-the-start-index", self.same(at, start))
+
+
+# ---- abi.Bool scalar codec (pyteal/ast/abi/bool.py) -------------------------------------------------------------------------------
+class _BoolCodec(_Codec):
+    def __init__(self):
+        super().__init__()
+        pt = self.pt
+        from pyteal.ast.abi.bool import Bool
+        self.Bool = Bool
+        for name in ("GetBit", "SetBit", "Not"):
+            self.callees[getattr(pt, name)] = (lambda n: lambda I, args, kwargs: stamp(SObj(getattr(pt, n), {"ctor": n, "args": list(args)})))(name)
+        self.callees[pt.Expr.__dict__["__mul__"]] = lambda I, args, kwargs: stamp(SObj(pt.NaryExpr, {"ctor": "Mul", "args": list(args)}))
+
+    def this(self, ctx):
+        t = z3.Int("stored_value")
+        ctx.assume(t >= 0)
+        var = SRef(t, self.AbstractVar)
+        return stamp(SObj(self.Bool, {"_stored_value": var})), var
+
+    def is_store(self, res, var):
+        return isinstance(res, SObj) and res.cls is self.pt.ScratchStore and res.fields["var"] is var
+
+
+class BoolDecode(_BoolCodec):
+    """Bool.decode(encoded, start_index=s) stores getbit(encoded, s * 8) - the most significant bit of byte s, the ARC-4 position of a
+    stand-alone bool - into the value's own variable; s = 0 when no start index is given. end_index / length are irrelevant."""
+    target = "pyteal.ast.abi.bool.Bool.decode"
+
+    def setup(self, ctx, I):
+        this, var = self.this(ctx)
+        e = z3.Int("encoded")
+        ctx.assume(e >= 0)
+        enc = SRef(e, self.pt.Expr)
+        kw = {}
+        for nm in ("start_index", "end_index", "length"):
+            if ctx.branch(z3.Bool("has_" + nm)):
+                t = z3.Int(nm)
+                ctx.assume(t >= 0)
+                kw[nm] = SRef(t, self.pt.Expr)
+        ctx.ghost.update(var=var, enc=enc, start=kw.get("start_index"))
+        return {"args": [this, enc], "kwargs": kw}
+
+    def post(self, ctx, I, outcome, st):
+        var, enc, start = ctx.ghost["var"], ctx.ghost["enc"], ctx.ghost["start"]
+        if outcome[0] == "raise":
+            ctx.oblige("never-raises", z3.BoolVal(False))
+            return
+        res = outcome[1]
+        ok = self.is_store(res, var) and self.is_ctor(res.fields["value"], "GetBit", 2)
+        ctx.oblige("stores-a-getbit-into-the-own-variable", z3.BoolVal(bool(ok)))
+        if not ok:
+            return
+        src, bit = res.fields["value"].fields["args"]
+        ctx.oblige("reads-the-encoded-string", self.same(src, enc))
+        mul = self.is_ctor(bit, "Mul", 2)
+        ctx.oblige("bit-index-is-a-product", z3.BoolVal(bool(mul)))
+        if mul:
+            a, b = bit.fields["args"]
+            cb = self.const(b)
+            ctx.oblige("byte-index-times-8", z3.BoolVal(False) if cb is None else ((cb == 8) if is_z3(cb) else z3.BoolVal(cb == 8)))
+            if start is None:
+                ca = self.const(a)
+                ctx.oblige("byte-index-0-when-no-start-index", z3.BoolVal(False) if ca is None else ((ca == 0) if is_z3(ca) else z3.BoolVal(ca == 0)))
+            else:
+                ctx.oblige("byte-index-is-the-start-index", self.same(a, start))
+
+
+class BoolEncode(_BoolCodec):
+    """Bool.encode() = setbit(0x00, 0, value): one byte whose most significant bit is the value."""
+    target = "pyteal.ast.abi.bool.Bool.encode"
+
+    def setup(self, ctx, I):
+        this, var = self.this(ctx)
+        ctx.ghost.update(var=var)
+        return {"args": [this]}
+
+    def post(self, ctx, I, outcome, st):
+        var = ctx.ghost["var"]
+        if outcome[0] == "raise":
+            ctx.oblige("never-raises", z3.BoolVal(False))
+            return
+        res = outcome[1]
+        ok = self.is_ctor(res, "SetBit", 3)
+        if ok:
+            base, idx, v = res.fields["args"]
+            ok = self.is_ctor(base, "Bytes", 1) and base.fields["args"][0] == b"\x00" and self.const(idx) == 0 \
+                and isinstance(v, SObj) and v.cls is self.pt.ScratchLoad and v.fields["var"] is var
+        ctx.oblige("setbit-of-a-single-zero-byte-at-bit-0-with-the-own-value", z3.BoolVal(bool(ok)))
